@@ -8,7 +8,7 @@
    multiset ds; [active_ok es a] = a holds total/start/end/elapsed/active of the slices es. *)
 From Coq Require Import ZArith QArith Qabs List String Permutation Sorted.
 Import ListNotations.
-From AiuModel Require Import Base Stats Stats_proofs.
+From AiuModel Require Import Base Stats Stats_proofs Filenames.
 Local Open Scope Q_scope.
 
 (* (0) the stage raises exactly when a kernel slice lacks TS1..TS5 (KeyError) or has dur <= 0 (AssertionError) *)
@@ -190,3 +190,23 @@ Example C12_malformed :
   run [mkEv "X" "k_1 Cmpt Exec" 0 1 2 true 1; mkEv "X" "k_2 Cmpt Exec" 0 5 0 true 2] = Err "AssertionError" /\
   run [mkEv "X" "k_1 Cmpt Exec" 0 1 0 false 1] = Err "KeyError".
 Proof. split; vm_compute; reflexivity. Qed.
+
+(* ---------- where <output>_summary.csv / _active.csv are written: next to the output file ---------- *)
+(* The generated name splits into the SAME directory prefix as the output path (".pt.trace" removed) and a file name
+   derived from the output's file name alone - for every path, whatever dots its directories contain.  Until /repo fix
+   C12b "-o ./res" wrote "_summary.csv" into the current directory and "-o run.v1/res" wrote "run_summary.csv" one
+   level up (seeded/revert_fix_C12b). *)
+Theorem C12_csv_next_to_output :
+  forall fname purpose ext : string,
+    has_slash purpose = false -> has_slash ext = false ->
+    split_dir (gen_filename fname purpose ext) =
+    (fst (split_dir (remove_go ".pt.trace" 0 fname)),
+     (before_last_dot (snd (split_dir (remove_go ".pt.trace" 0 fname))) ++ "_" ++ purpose ++ "." ++ ext)%string).
+Proof. exact gen_filename_same_directory. Qed.
+Print Assumptions C12_csv_next_to_output.
+
+Example C12_csv_names :
+  gen_filename "run.v1/res" "summary" "csv" = "run.v1/res_summary.csv"%string /\
+  gen_filename "./res" "active" "csv" = "./res_active.csv"%string /\
+  gen_filename "a.b/out.pt.trace.json" "summary" "csv" = "a.b/out_summary.csv"%string.
+Proof. repeat split; vm_compute; reflexivity. Qed.
